@@ -124,6 +124,41 @@ fn main() {
             eprintln!("bad json {file}: {e}");
             std::process::exit(2)
         });
+        if v.get("part").and_then(|p| p.as_str()) == Some("thread-history") {
+            // re-run the property restricted to one generator thread, in a child of this process
+            let only = v.get("only").and_then(|s| s.as_str()).unwrap_or("").to_string();
+            let extra: Vec<String> = v.get("args").and_then(|a| a.as_array()).map(|a| a.iter().filter_map(|x| x.as_str().map(String::from)).collect()).unwrap_or_default();
+            let exe = std::env::current_exe().expect("current_exe");
+            let st = std::process::Command::new(&exe)
+                .arg(&id)
+                .args(&extra)
+                .args(["--no-evidence", "--replays-dir", "/nonexistent"])
+                .env("VCHECK_CHILD", "1")
+                .env("VCHECK_ONLY", &only)
+                .stdout(std::process::Stdio::null())
+                .stderr(std::process::Stdio::null())
+                .status();
+            match st {
+                Ok(s) if matches!(s.code(), Some(0)) => {
+                    println!("replay {file}: the process survives the case list of generator thread {only}");
+                    std::process::exit(0);
+                }
+                other => {
+                    println!("replay {file}: the case list of generator thread {only} ends the process with {other:?}");
+                    println!("VIOLATION property={id} replay={file}");
+                    std::process::exit(1);
+                }
+            }
+        }
+        if v.get("part").and_then(|p| p.as_str()) == Some("sequence") {
+            // a sequence of cases that killed a supervised child: run them in order on this thread; the verdict is
+            // whether the process survives (the individual results were judged when the cases ran)
+            for c in v.get("cases").and_then(|c| c.as_array()).cloned().unwrap_or_default() {
+                let _ = replay_with_logging(&c, &|c| (prop.replay)(c));
+            }
+            println!("replay {file}: the process survives this sequence of cases");
+            std::process::exit(0);
+        }
         match replay_with_logging(&v, &|v| (prop.replay)(v)) {
             Ok(()) => {
                 println!("replay {file}: property holds on this case");
@@ -158,6 +193,15 @@ fn main() {
                 }
             }
             replayed += 1;
+            if matches!(v.get("part").and_then(|p| p.as_str()), Some("sequence") | Some("thread-history")) {
+                // a history that once killed the process: re-run it in a process of its own
+                if let Some(how) = replay_in_child(&id, &build, &verif_root, &f) {
+                    println!("saved reproduction fails again: {} : the process terminates abnormally ({how})", f.display());
+                    println!("VIOLATION property={} replay={}", id, f.display());
+                    printed.push(f.display().to_string());
+                }
+                continue;
+            }
             if let Err(m) = replay_with_logging(&v, &|v| (prop.replay)(v)) {
                 let sig = v.get("signature").and_then(|s| s.as_str()).unwrap_or("replay").to_string();
                 if ctx.is_known(&sig) {
@@ -288,6 +332,25 @@ fn write_evidence(path: &Path, ctx: &Ctx, st: &Stats, rule: &str, assumptions: &
 /// abort from std's ub_checks, stack overflow) is attributed to the cases journalled by the child:
 /// each is re-executed alone in a fresh child, and those that kill it again are reported as
 /// violations with the journalled case as the replay file.
+/// Run `--replay file` in a child process with glibc's heap consistency checks switched on (so that heap corruption is
+/// reported when the damaged block is freed instead of going unnoticed); Some(description) if the child does not exit 0.
+fn replay_in_child(id: &str, build: &str, root: &Path, f: &Path) -> Option<String> {
+    let exe = std::env::current_exe().ok()?;
+    let mut cmd = std::process::Command::new(&exe);
+    cmd.args([id, "--build", build, "--root", &root.display().to_string(), "--replay", &f.display().to_string()])
+        .env("VCHECK_CHILD", "1")
+        .stdout(std::process::Stdio::null())
+        .stderr(std::process::Stdio::null());
+    let dbg = "/lib/x86_64-linux-gnu/libc_malloc_debug.so.0";
+    if Path::new(dbg).exists() {
+        cmd.env("LD_PRELOAD", dbg).env("GLIBC_TUNABLES", "glibc.malloc.check=3").env("MALLOC_PERTURB_", "165");
+    }
+    match cmd.status() {
+        Ok(s) if !matches!(s.code(), Some(0)) => Some(format!("{s:?}")),
+        _ => None,
+    }
+}
+
 fn supervise(args: &[String], id: &str, root: &Path, build: &str) -> i32 {
     let exe = std::env::current_exe().expect("current_exe");
     let jdir = std::env::temp_dir().join(format!("vcheck-journal-{}-{}", id, std::process::id()));
@@ -308,27 +371,90 @@ fn supervise(args: &[String], id: &str, root: &Path, build: &str) -> i32 {
             return c;
         }
     }
-    eprintln!("[{id}:{build}] child terminated abnormally ({status:?}); re-executing the journalled cases one by one");
+    eprintln!("[{id}:{build}] child terminated abnormally ({status:?}); re-executing the journalled cases");
     let mut found = 0;
+    // does a replay file kill a fresh process?
+    let dies = |f: &Path| -> Option<String> { replay_in_child(id, build, root, f) };
+    let mut report = |mut case: Value, how: String| {
+        if let Value::Object(m) = &mut case {
+            m.insert("signature".into(), json!(format!("{id}:abnormal-termination")));
+            m.insert("message".into(), json!(format!("executing this {} terminates the process abnormally in build {build} ({how}); the checking process contains no unsafe code of its own", if m.contains_key("cases") { "sequence of cases (on one thread, in this order)" } else { "case" })));
+            m.insert("build".into(), json!(build));
+        }
+        let dir = root.join("replays").join(id);
+        let _ = std::fs::create_dir_all(&dir);
+        let body = serde_json::to_string_pretty(&case).unwrap();
+        let path = dir.join(format!("new-{:016x}.json", hash_str(&body)));
+        let _ = std::fs::write(&path, body);
+        println!("violation: {} terminates the process abnormally in build {build} ({how})", if case.get("cases").is_some() { "a sequence of cases" } else { "a case" });
+        println!("VIOLATION property={} replay={}", id, path.display());
+    };
     if let Ok(rd) = std::fs::read_dir(&jdir) {
         let mut files: Vec<PathBuf> = rd.filter_map(|e| e.ok()).map(|e| e.path()).collect();
         files.sort();
-        for f in files {
-            let Ok(txt) = std::fs::read_to_string(&f) else { continue };
-            let Ok(mut case) = serde_json::from_str::<Value>(&txt) else { continue };
-            let st = std::process::Command::new(&exe)
-                .args([id, "--build", build, "--root", &root.display().to_string(), "--replay", &f.display().to_string()])
-                .env("VCHECK_CHILD", "1")
-                .stdout(std::process::Stdio::null())
-                .status();
-            let dies = match st {
-                Ok(s) => !matches!(s.code(), Some(0)),
-                Err(_) => false,
-            };
-            if dies {
+        let journals: Vec<Vec<Value>> = files
+            .iter()
+            .filter_map(|f| std::fs::read_to_string(f).ok())
+            .filter_map(|t| serde_json::from_str::<Value>(&t).ok())
+            .map(|v| match v {
+                Value::Array(a) => a,
+                other => vec![other],
+            })
+            .collect();
+        // the generator thread each journal belongs to (first element), if any
+        let tags: Vec<Option<String>> = journals.iter().map(|j| j.first().and_then(|h| h.get("journal_of")).and_then(|t| t.as_str()).map(String::from)).collect();
+        let journals: Vec<Vec<Value>> = journals.into_iter().map(|j| j.into_iter().filter(|c| c.get("journal_of").is_none()).collect()).collect();
+        let tmp = jdir.join("try.json");
+        // 1. the last case of each thread on its own
+        for j in &journals {
+            if let Some(last) = j.last() {
+                let _ = std::fs::write(&tmp, last.to_string());
+                if let Some(how) = dies(&tmp) {
+                    report(last.clone(), how);
+                    found += 1;
+                }
+            }
+        }
+        // 2. the last k cases of a thread, in order, on one thread of a fresh process (state left behind by earlier calls)
+        if found == 0 {
+            'outer: for j in &journals {
+                for k in [2usize, 3, 4, 6, 8, 12, 16, JOURNAL_DEPTH, JOURNAL_DEPTH + 12, JOURNAL_DEPTH + 32, JOURNAL_DEPTH + JOURNAL_LARGE] {
+                    if k > j.len() && k != 2 {
+                        continue;
+                    }
+                    let seq = json!({"prop": id, "part": "sequence", "cases": j[j.len().saturating_sub(k)..].to_vec()});
+                    let _ = std::fs::write(&tmp, seq.to_string());
+                    if let Some(how) = dies(&tmp) {
+                        report(seq, how);
+                        found += 1;
+                        break 'outer;
+                    }
+                }
+            }
+        }
+    }
+    // 3. the whole case list of one generator thread (a pure function of seed, property and thread tag), alone in a
+    //    fresh process: state that took the entire history of that thread to build up
+    if found == 0 {
+        let mut tags: Vec<String> = Vec::new();
+        if let Ok(rd) = std::fs::read_dir(&jdir) {
+            for f in rd.filter_map(|e| e.ok()).map(|e| e.path()) {
+                if let Some(t) = std::fs::read_to_string(&f).ok().and_then(|t| serde_json::from_str::<Value>(&t).ok()).and_then(|v| v.get(0).and_then(|h| h.get("journal_of")).and_then(|t| t.as_str()).map(String::from)) {
+                    tags.push(t);
+                }
+            }
+        }
+        tags.sort();
+        tags.dedup();
+        let tmp = jdir.join("try-thread.json");
+        for tag in tags {
+            let case = json!({"prop": id, "part": "thread-history", "only": tag, "args": args[2..].to_vec()});
+            let _ = std::fs::write(&tmp, case.to_string());
+            if let Some(how) = replay_in_child(id, build, root, &tmp) {
+                let mut case = case;
                 if let Value::Object(m) = &mut case {
                     m.insert("signature".into(), json!(format!("{id}:abnormal-termination")));
-                    m.insert("message".into(), json!(format!("executing this case terminates the process abnormally in build {build} ({st:?})")));
+                    m.insert("message".into(), json!(format!("running the generated cases of generator thread {tag} alone, in order, on one thread of a fresh process terminates it abnormally in build {build} ({how}); the checking process contains no unsafe code of its own")));
                     m.insert("build".into(), json!(build));
                 }
                 let dir = root.join("replays").join(id);
@@ -336,9 +462,10 @@ fn supervise(args: &[String], id: &str, root: &Path, build: &str) -> i32 {
                 let body = serde_json::to_string_pretty(&case).unwrap();
                 let path = dir.join(format!("new-{:016x}.json", hash_str(&body)));
                 let _ = std::fs::write(&path, body);
-                println!("violation: case terminates the process abnormally in build {build}");
+                println!("violation: the case list of generator thread {tag} terminates the process abnormally in build {build} ({how})");
                 println!("VIOLATION property={} replay={}", id, path.display());
                 found += 1;
+                break;
             }
         }
     }
